@@ -215,6 +215,8 @@ class HeapMixin:
             return self.any_subscript(obj, key, fr)
         if isinstance(obj, SymBytes):
             raise Unsupported("index into payload bytes")
+        if isinstance(obj, (int, SymInt, bool, SymBool, float)):
+            raise mk_exc(TypeError, "object is not subscriptable", where=fr.where())
         if isinstance(obj, type):  # typing generics like trio.open_memory_channel[T]
             return obj
         if callable(obj) and not is_sym(key):
@@ -286,6 +288,16 @@ class HeapMixin:
                 return
             if not is_sym(key) and 0 <= key < len(obj.items):
                 obj.items[key] = v
+                return
+            if not is_sym(key) and key >= 0 and obj.sym is not None:
+                k = key - len(obj.items)
+                sq = obj.sym
+                n = z3.Length(sq.e)
+                if not self.ctx.branch(k < n, f"idx@{fr.line}"):
+                    raise mk_exc(IndexError, "list assignment index out of range", where=fr.where())
+                unit = ops.to_seq(self.ctx, PList([v]), like=sq)
+                new = z3.Concat(z3.SubSeq(sq.e, 0, k), unit.e, z3.SubSeq(sq.e, k + 1, n - k - 1))
+                obj.sym = SymSeq(z3.simplify(new), sq.elem)
                 return
             raise Unsupported("store into symbolic list")
         if isinstance(obj, SymMap):
